@@ -2,8 +2,8 @@
 
 case = {'strs': [str, ...], 'spans': [int, ...], 'sc': src_chunksize, 'dc': dest_chunksize,
         'mult': chunksize_mult, 'kind': 'mm' | 'hh', 'sdt': 'int64' | 'int32'}
-  kind 'mm': memory-backed source and destination fields (IndexedStringMemField), ~1 ms / case
-  kind 'hh': HDF5-backed fields in an in-memory file as tests/test_session.py does, ~15 ms / case
+  kind = <source><destination>, 'm' memory-backed (IndexedStringMemField, ~1 ms / case), 'h' HDF5-backed field in
+  an in-memory file as tests/test_session.py does (~15 ms / case); sc / dc / mult may be None (library default)
 canonical result = [data, indices, values, parsed]
   data    dest.data[:] as UTF-8 byte lists         indices dest.indices[:]      values dest.values[:]
   parsed  every output entry parsed as one CSV line (impl side: Python's csv.reader;
@@ -20,9 +20,9 @@ ALPHABET = ['', 'a', ',', '"', 'é,', 'b']
 RULE = ('exhaustive small scope: every column of length <= 4 (quick) / <= 5 (thorough) over the strings '
         + repr(ALPHABET) + ' x every partition of the rows into consecutive non-empty spans x src_chunksize in '
         '{1,2,3,#spans+1} x value buffer N = dest_chunksize*mult in {smallest fitting, +1, never-full} (factored as '
-        'N*1, 1*N or (N/2)*2), memory-backed fields; every 29th case is also run on HDF5-backed fields. Then seeded '
+        'N*1, 1*N or (N/2)*2; for 5-row columns a rotating half of these 12 configurations), memory-backed fields; every 29th case is also run on HDF5-backed fields. Then seeded '
         'random longer columns (<= 24 rows, strings <= 6 chars over a 9-symbol alphabet incl. 2-,3-,4-byte UTF-8) with '
-        'random span boundaries (also empty, partial and unordered spans) and random chunk parameters, and a malformed '
+        'random span boundaries (also empty, partial and unordered spans) and random chunk parameters, library-default chunk parameters (None) on all four memory/HDF5 source-destination combinations (model run with small fitting parameters, justified by concat_chunking_unobservable), and a malformed '
         'stream (value buffer too small, src_chunksize 1 with tiny buffers) where model OOB must equal IndexError. '
         'Non-trivial = at least two spans, or any quoted / multi-entry / empty-output span.')
 EXHAUSTIVE = {'quick': True, 'thorough': True}
@@ -32,6 +32,7 @@ ASSUMPTIONS = ['span boundaries lie in [0, #rows]', 'src_chunksize >= 1',
                'every span output e satisfies len e + max(0, N/2 - 1) <= N for N = dest_chunksize*mult',
                'strings contain no CR/LF (the property speaks of CSV lines)', 'offsets fit int64']
 TIMEOUT_S = 20.0
+DEFAULT_CHUNK = 1 << 20
 
 _np = _session = _fields = _csv = None
 _S = None      # per-process session + dataframe for HDF5-backed cases
@@ -74,35 +75,50 @@ def _observe(dest):
     return [[list(e.encode('utf-8')) for e in data], ind, val, parsed]
 
 
+def _eff(case):
+    """effective (src_chunksize, dest_chunksize, mult): None means the library default
+    (field / session chunksize 1<<20, multiplier 16)."""
+    sc = DEFAULT_CHUNK if case['sc'] is None else case['sc']
+    dc = DEFAULT_CHUNK if case['dc'] is None else case['dc']
+    mult = 16 if case['mult'] is None else case['mult']
+    return sc, dc, mult
+
+
 def run(case):
     np = _np
     spans = np.asarray(case['spans'], dtype=(np.int32 if case.get('sdt') == 'int32' else np.int64))
-    if case.get('kind', 'mm') == 'mm':
-        s = _S[0] if (_S is not None and _S[1] == os.getpid()) else _h5()[0]
-        src = _fields.IndexedStringMemField(s)
-        src.data.write(list(case['strs']))
-        dest = _fields.IndexedStringMemField(s)
-        s.apply_spans_concat(spans, src, dest, case['sc'], case['dc'], case['mult'])
-        return _observe(dest)
+    kind = case.get('kind', 'mm')
     s, df = _h5()
     for nm in ('v', 'r'):
         if nm in df:
             del df[nm]
     try:
-        src = s.create_indexed_string(df, 'v')
-        src.data.write(list(case['strs']))
-        dest = s.create_indexed_string(df, 'r')
-        s.apply_spans_concat(spans, s.get(df['v']), dest, case['sc'], case['dc'], case['mult'])
+        if kind[0] == 'm':
+            src = _fields.IndexedStringMemField(s)
+            src.data.write(list(case['strs']))
+        else:
+            s.create_indexed_string(df, 'v').data.write(list(case['strs']))
+            src = s.get(df['v'])
+        dest = _fields.IndexedStringMemField(s) if kind[1] == 'm' else s.create_indexed_string(df, 'r')
+        s.apply_spans_concat(spans, src, dest, case['sc'], case['dc'], case['mult'])
         return _observe(dest)
     finally:
-        for nm in ('v', 'r'):
-            if nm in df:
-                del df[nm]
+        if kind != 'mm':
+            for nm in ('v', 'r'):
+                if nm in df:
+                    del df[nm]
 
 
 def to_val(case):
-    return [VARIANT, [list(x.encode('utf-8')) for x in case['strs']], list(case['spans']),
-            case['sc'], case['dc'], case['mult']]
+    sc, dc, mult = case['sc'], case['dc'], case['mult']
+    if sc is None or dc is None or mult is None:
+        # library defaults (2^20-slot buffers): the model is run with small parameters that satisfy the
+        # hypotheses of concat_session_correct; by concat_chunking_unobservable the result is the same.
+        total = sum(len(e.encode('utf-8')) for e in _entries(case))
+        sc = len(case['spans']) + 1 if sc is None else sc
+        if dc is None or mult is None:
+            dc, mult = 2 * total + 4, 1
+    return [VARIANT, [list(x.encode('utf-8')) for x in case['strs']], list(case['spans']), sc, dc, mult]
 
 
 def _dec(v):
@@ -137,7 +153,8 @@ def _entries(case):
 def _batches(case):
     """[(n_spans, n_bytes, why)] of the repaired driver, from the span output lengths."""
     lens = [len(e.encode('utf-8')) for e in _entries(case)]
-    sc, maxv = case['sc'], (case['dc'] * case['mult']) // 2
+    sc, dc, mult = _eff(case)
+    maxv = (dc * mult) // 2
     res, k, first = [], 0, True
     while k < len(lens):
         dii, div, n, why = (1 if first else 0), 0, 0, 'end'
@@ -152,7 +169,8 @@ def _batches(case):
 
 
 def _fits(case):
-    N = case['dc'] * case['mult']
+    sc, dc, mult = _eff(case)
+    N = dc * mult
     return all(len(e.encode('utf-8')) + max(0, N // 2 - 1) <= N for e in _entries(case))
 
 
@@ -166,7 +184,10 @@ def features(case, model):
     if not strs:
         f.append('empty-column')
     inrange = all(0 <= x <= len(strs) for x in sp)
-    if not inrange or case['sc'] < 1 or case['dc'] * case['mult'] < 0:
+    esc, edc, emult = _eff(case)
+    if case['sc'] is None or case['dc'] is None or case['mult'] is None:
+        f.append('default-chunk-params')
+    if not inrange or esc < 1 or edc * emult < 0:
         f.append('outside-precondition')
         return f
     if not _fits(case):
@@ -265,7 +286,9 @@ def gen(tier, rng):
         for col in itertools.product(ALPHABET, repeat=n):
             for sp in _compositions(n):
                 base = {'strs': list(col), 'spans': sp}
-                for (sc, dc, mult) in _configs(base):
+                for ci, (sc, dc, mult) in enumerate(_configs(base)):
+                    if n == 5 and (ci + len(sp) + sum(map(len, col))) % 2:
+                        continue    # thorough tier, longest columns: a rotating half of the 12 configurations
                     count += 1
                     c = dict(base, sc=sc, dc=dc, mult=mult, kind='mm', sdt=('int32' if count % 2 else 'int64'))
                     yield c
@@ -299,6 +322,17 @@ def gen(tier, rng):
         dc, mult = _factor(N, rng.randint(0, 2))
         sc = rng.choice([1, 2, 3, rng.randint(1, 9), len(lens) + 1])
         yield dict(base, sc=sc, dc=dc, mult=mult, kind=('hh' if r % 10 == 0 else 'mm'), sdt=rng.choice(['int32', 'int64']))
+    # library-default chunk parameters (None) on every combination of memory- / HDF5-backed source and destination
+    defaults_cols = [['a', 'b,c', '', 'd"'], ['', ''], ['é,', '', 'x', 'y', ',', '"']] + \
+                    [[rng.choice(ALPHABET + ['abc', 'a,b', '""']) for _ in range(rng.randint(1, 9))] for _ in range(40 if big else 12)]
+    for col in defaults_cols:
+        n = len(col)
+        cuts = sorted(rng.sample(range(1, n), rng.randint(0, n - 1))) if n > 1 else []
+        sp = [0] + cuts + [n]
+        for kind in ('mm', 'mh', 'hm', 'hh'):
+            yield {'strs': col, 'spans': sp, 'sc': None, 'dc': None, 'mult': None, 'kind': kind, 'sdt': 'int64'}
+            yield {'strs': col, 'spans': sp, 'sc': 2, 'dc': None, 'mult': None, 'kind': kind, 'sdt': 'int32'}
+            yield {'strs': col, 'spans': sp, 'sc': None, 'dc': 64, 'mult': 2, 'kind': kind, 'sdt': 'int64'}
     # malformed stream: buffers too small for a span (model OOB <=> IndexError in the checked modes)
     for r in range(3000 if big else 600):
         n = rng.randint(1, 6)
@@ -325,9 +359,9 @@ def shrink(case):
     for i in range(n):
         if strs[i] not in ('', 'a'):
             yield dict(case, strs=strs[:i] + ['a'] + strs[i + 1:])
-    if case.get('kind') == 'hh':
+    if case.get('kind') != 'mm':
         yield dict(case, kind='mm')
-    if case['mult'] != 1:
+    if case['mult'] is not None and case['dc'] is not None and case['mult'] != 1:
         yield dict(case, dc=case['dc'] * case['mult'], mult=1)
 
 
